@@ -57,12 +57,26 @@ func c18ProcSessions(t *rapid.T) {
 	nsessions := rapid.IntRange(1, 3).Draw(t, "sessions")
 	navigated, submitted, hitCap := false, 0, false
 	for si := 0; si < nsessions; si++ {
-		s := StartSession(t, SessionCfg{Args: []string{"--no-mouse", "--history", path, fmt.Sprintf("--history-size=%d", max)}, Input: []byte("a b\nab c\nccc\n"), Width: 60, Height: 10})
-		if _, ok := s.WaitFor(1, func(st *Status) bool { return !st.Reading && st.TotalCount == 3 }); !ok {
+		// the two options in either order and either spelling
+		hArgs := [][]string{{"--history", path}, {fmt.Sprintf("--history-size=%d", max)}}
+		if rapid.Bool().Draw(t, "sizeFirst") {
+			hArgs[0], hArgs[1] = hArgs[1], hArgs[0]
+		}
+		if rapid.Bool().Draw(t, "equalsForm") {
+			for i := range hArgs {
+				if len(hArgs[i]) == 2 {
+					hArgs[i] = []string{"--history=" + path}
+				} else {
+					hArgs[i] = []string{"--history-size", fmt.Sprint(max)}
+				}
+			}
+		}
+		s := StartSession(t, SessionCfg{Args: append(append([]string{"--no-mouse"}, hArgs[0]...), hArgs[1]...), Input: []byte("a b\nab c\nccc\n"), Width: 60, Height: 10})
+		if _, ok := s.WaitFor(1, func(st *Status) bool { return !st.Reading && st.TotalCount == 3 && st.MatchCount == 3 }); !ok {
 			s.Close()
 			infra(t, "session did not settle (stderr %q)", s.Stderr())
 		}
-		trace = append(trace, fmt.Sprintf("-- session %d", si+1))
+		trace = append(trace, fmt.Sprintf("-- session %d: fzf %s %s", si+1, strings.Join(hArgs[0], " "), strings.Join(hArgs[1], " ")))
 		sess := model.NewSession()
 		input := ""
 		check := func(step string) {
@@ -116,13 +130,26 @@ func c18ProcSessions(t *rapid.T) {
 		before, _ := os.ReadFile(path)
 		end := rapid.SampledFrom([]string{"accept", "accept", "abort", "print-query", "accept-non-empty"}).Draw(t, "end")
 		if end == "accept-non-empty" {
-			// documented: does not leave when there is nothing to accept
-			s.Post(end)
-			if _, exited := s.WaitExit(2 * time.Second); !exited {
-				st, ok := s.WaitFor(1, func(st *Status) bool { return st.Query == input })
-				if !ok || st.MatchCount != 0 {
+			// documented: does not leave when there is nothing to accept. Whether there is
+			// something to accept at the moment the action runs depends on the search for the
+			// last query edit having finished, so the action is repeated while matches exist.
+			exited := false
+			var st *Status
+			for try := 0; try < 4 && !exited; try++ {
+				s.Post(end)
+				if _, exited = s.WaitExit(2 * time.Second); exited {
+					break
+				}
+				var ok bool
+				st, ok = s.WaitFor(1, func(st *Status) bool { return st.Query == input })
+				if ok && st.MatchCount == 0 {
+					break
+				}
+			}
+			if !exited {
+				if st == nil || st.MatchCount != 0 {
 					s.Close()
-					t.Fatalf("accept-non-empty did not end the session although %s\n%s", describe(st), strings.Join(trace, "\n"))
+					t.Fatalf("accept-non-empty (sent 4 times) did not end the session although %s\n%s", describe(st), strings.Join(trace, "\n"))
 				}
 				trace = append(trace, "accept-non-empty (stays: no match)")
 				end = "abort"
@@ -232,11 +259,22 @@ func c19ProcWalker(t *rapid.T) {
 			w = append(w, f.name)
 		}
 	}
-	skips := rapid.SampledFrom([][]string{{".git", "node_modules"}, {"src"}, {"a/b"}, {}}).Draw(t, "skip")
-	args := []string{"--no-mouse", "--walker=" + strings.Join(w, ","), "--walker-skip=" + strings.Join(skips, ",")}
-	if len(skips) == 0 {
-		args = args[:2]
-		skips = []string{".git", "node_modules"} // documented default
+	skips := rapid.SampledFrom([][]string{{".git", "node_modules"}, {"src"}, {"a/b"}, {}, nil, nil}).Draw(t, "skip")
+	args := []string{"--no-mouse", "--walker=" + strings.Join(w, ",")}
+	if rapid.IntRange(0, 3).Draw(t, "earlierSkip") == 0 {
+		// an earlier occurrence is overridden by the later one
+		args = append(args, "--walker-skip", rapid.SampledFrom([]string{"a", "src,b", ".h"}).Draw(t, "earlier"))
+		if skips == nil {
+			skips = []string{}
+		}
+	}
+	switch {
+	case skips == nil:
+		skips = []string{".git", "node_modules"} // option not given: documented default
+	case len(skips) == 0:
+		args = append(args, "--walker-skip", "") // an empty list: nothing is pruned
+	default:
+		args = append(args, "--walker-skip="+strings.Join(skips, ","))
 	}
 	s := StartSession(t, SessionCfg{Args: args, NoStdin: true, Cwd: root, Width: 80, Height: 30, Env: []string{"FZF_DEFAULT_COMMAND="}})
 	defer s.Close()
